@@ -257,8 +257,10 @@ func (c *connection) onProcess(onConnect OnConnect, onRequest OnRequest) (proces
 				// it must still be offered to onRequest before the callbacks run.
 				goto START
 			}
-			// fd must already detach by poller
-			c.closeCallback(false, false)
+			// If the poller closed the connection it has already detached the operator. If the user
+			// closed it (Close/Detach failed to take processing while this task was exiting) nobody
+			// has: detach here, as the exit path above does.
+			c.closeCallback(false, c.status(closing) == user)
 			panicked = false
 			return
 		}
